@@ -10,17 +10,27 @@ LEVEL_NOTE = ("Trusted: Lean 4.33 kernel + axioms {propext, Classical.choice, Qu
               "tolerance stated in evidence); IEEE rounding, pandas/numpy/sklearn/scipy/torch internals are modelled by "
               "their specification, not verified.")
 
-# pid -> (claimed?, technique, level text, design ref, reason if not claimed)
-TABLE = {
-    "C14": (True, "Lean 4 theorems over BaseMetrics model + driver correspondence",
-            "Theorems (all inputs): rates in [0,1], TPR+FNR / TNR+FPR = 1 or both 0, pos_label swap, rejection rules, "
-            "selection_rate/mean_prediction/count definitions. Tie: the 7 public functions vs the compiled Lean model "
-            "on generated + exhaustive small inputs, incl. scalar-ness of results.", "4/C14"),
-}
+def table():
+    """pid -> (claimed?, technique, level text, design ref) collected from harness/props/cXX.py"""
+    import importlib
+    out = {}
+    d = os.path.join(VERIF, "harness", "props")
+    for fn in sorted(os.listdir(d)):
+        if fn.startswith("c") and fn.endswith(".py"):
+            mod = importlib.import_module(f"harness.props.{fn[:-3]}")
+            c = mod.CHECK
+            if getattr(c, "claimed", True):
+                out[c.pid] = (True, c.technique, c.level_text, c.design_ref)
+            else:
+                out[c.pid] = (False, "", "", "", c.not_applicable_reason)
+    return out
+
+
 ALL = [f"C{n:02d}" for n in range(1, 21)]
 
 
 def main():
+    TABLE = table()
     checks, na = [], []
     for pid in ALL:
         row = TABLE.get(pid)
@@ -42,7 +52,7 @@ def main():
                                   "check not yet built in this revision (planned: Lean model + theorems + correspondence, see DESIGN.md section 4)")})
     man = {
         "version": 1,
-        "setup_cmd": "cd lean && lake build FairModel driver",
+        "setup_cmd": "/venv/bin/python -m harness.setup",
         "hooks": {
             "guard": "FAIRLEARN_VERIF",
             "enable": "no source hooks are needed; checks set FAIRLEARN_VERIF=1 for uniformity",
